@@ -182,9 +182,11 @@ def run(ctx):
             except Unknown:
                 return False
         return False
-    rej = any(isinstance(n, ast.If) and isinstance(n.test, ast.Compare) and txt(n.test.left) == 'count' and
-              isinstance(n.test.ops[0], ast.Eq) and is_repeat(n.test.comparators[0]) and
-              any(isinstance(x, ast.Raise) for x in n.body) for n in ast.walk(b.node))
+    def repeat_test(t):
+        return isinstance(t, ast.Compare) and len(t.ops) == 1 and isinstance(t.ops[0], ast.Eq) and (
+            (txt(t.left) == 'count' and is_repeat(t.comparators[0])) or (txt(t.comparators[0]) == 'count' and is_repeat(t.left)))
+    rej = any(isinstance(n, ast.If) and repeat_test(n.test) and any(isinstance(x, ast.Raise) for x in n.body)
+              for n in ast.walk(b.node))
     ctx.ob('T17', b.fq, "backoff rejects count='repeat' (a list cannot be endless)", rej, loc=b.loc)
     for r, n in (('T9.validate', 1), ('T9.range', 6), ('T7.clamp', 2), ('T17', 2), ('T19c', 1)):
         ctx.need(r, n)
